@@ -35,8 +35,16 @@ def main():
             print("%s: repaired patch does not apply: %s" % (sid, out[:200]))
             return 2
         rct, outt = sh("/venv/bin/python -m pytest -q -p no:cacheprovider --no-cov 2>&1 | tail -3", wt)
-        shutil.copytree(os.path.join(VERIF, "seeded", sid), os.path.join(wt, "_seed"))
-        rcd, outd = sh("/venv/bin/python _seed/demo.py", wt, 180)
+        # (the demo goes where its author had it -- <worktree>/_seed/<i>/demo.py --: several demos locate the tree under test
+        # relative to their own path, and one level higher they would silently test the installed package instead)
+        os.makedirs(os.path.join(wt, "_seed"), exist_ok=True)
+        shutil.copytree(os.path.join(VERIF, "seeded", sid), os.path.join(wt, "_seed", "1"))
+        rcd, outd = sh("/venv/bin/python _seed/1/demo.py", wt, 180)
+        # control: the same demo must FAIL on the seed itself in the same place (otherwise its PASS above proves nothing)
+        sh("git checkout -q -- gunicorn", wt)
+        rcs, outs_ = sh("git apply _seed/1/patch.diff && /venv/bin/python _seed/1/demo.py", wt, 180)
+        if rcs == 0:
+            print("%s: WARNING the seed's demo does not fail on the seed when run from _seed/1/ (vacuous confirmation)" % sid)
         ok = "260 passed" in outt and "failed" not in outt and rcd == 0
         print("%s: suite %s, seed demo exit %s -> %s" % (sid, "ok" if "260 passed" in outt else outt.strip()[-80:], rcd, "confirmed" if ok else "NOT confirmed"))
         if not ok:
